@@ -485,7 +485,11 @@ object_t* load_object (const char *mudlib_filename, const char *pre_text) {
       char inhbuf[MAX_OBJECT_NAME_SIZE];
 
       if (!strip_name (inherit_file, inhbuf, sizeof inhbuf))
-        strcpy (inhbuf, inherit_file);
+        {
+          /* not a legal object name ("//"): kept as it is, for the message below, as far as it fits */
+          strncpy (inhbuf, inherit_file, sizeof inhbuf - 1);
+          inhbuf[sizeof inhbuf - 1] = 0;
+        }
 
       FREE (inherit_file);
       inherit_file = 0;
